@@ -92,6 +92,16 @@ def r01_1(ctx, rep, roles, snd):
                 n_w += 1
                 ok = e[3] == sym.TRUE
                 adds = [x for x in row.calls() if x[1] == add_kv and row.events.index(x) < row.events.index(e)]
+                v = e[3]
+                if v[0] == "op" and v[1] == "BitOr" and adds:
+                    # `added |= ser.try_add_kv(..)`: the flag turns true exactly with a successful try_add_kv
+                    a, b = T.resolve_locals(snd.eng, row.store, v[2]), T.resolve_locals(snd.eng, row.store, v[3])
+                    is_flag = lambda t: t == sym.FALSE or (t[0] == "loopvar" and len(t) > 2 and t[2] == sym.FALSE)
+                    is_add = lambda t: t[0] == "call" and t[1] == add_kv
+                    rep.obligation((is_flag(a) and is_add(b)) or (is_flag(b) and is_add(a)), "C01/R01.1/flag-discipline",
+                                   "the 'added' flag is updated with %s" % sym.fmt(v)[:80], where(snd.fn, e[4][1] if e[4] else None),
+                                   sample="added |= try_add_kv(..)")
+                    continue
                 succ = False
                 for c in row.cond:
                     if c[0] == "truth" and c[1][0] == "call" and c[1][1] == add_kv and c[2] is True:
